@@ -10,6 +10,9 @@ UNITS = ['px', 'em', '%', 'deg', 's', 'pt']
 FUNCS = ['attr', 'counter', 'translate', 'x-fn']
 COLORS = ['#fff', '#a1b2c3', '#000', 'red', 'transparent', 'rgb(1, 2, 3)', 'rgba(0, 0, 0, 0.5)', 'hsl(120, 50%, 50%)', 'rgb(10%, 20%, 30%)']
 MEDIA = ['print', 'screen', 'tv', 'all', 'handheld']
+LENGTHS = ('cm', 'mm', 'in', 'px', 'pc', 'pt', 'em', 'ex')
+NUMS = ['0', '1', '12', '1.5', '-3', '0.25', '100', '+1.5', '.5', '-.25', '1.0', '010', '0.0', '-0', '3.14159265', '0.0000004',
+        '100000000', '1.9999999', '+0', '00.50']
 FEATURES = [('min-width', '100px'), ('max-width', '40em'), ('orientation', 'landscape'), ('color', None), ('min-resolution', '2'),
             ('monochrome', None), ('max-height', '50%')]
 
@@ -84,11 +87,11 @@ def gen_value(rnd, depth=0):
         if k == 'ident':
             comps.append(Comp('IDENT', rnd.choice(IDENTS)))
         elif k == 'number':
-            v = rnd.choice(['0', '1', '12', '1.5', '-3', '0.25', '100'])
+            v = rnd.choice(NUMS)
             comps.append(Comp('NUMBER', v))
         elif k == 'dimension':
             u = rnd.choice(UNITS)
-            v = rnd.choice(['1', '12', '1.5', '-3', '0.25'])
+            v = rnd.choice(NUMS)
             comps.append(Comp('PERCENTAGE' if u == '%' else 'DIMENSION', v + u))
         elif k == 'string':
             v = rnd.choice(['s', 'a b', 'x;y', 'q}', "it's", 'é', '/*c*/'])
@@ -554,6 +557,13 @@ def comp_model(v):
         return ('STRING', v.value)
     if t in ('FUNCTION', 'CALC', 'COLOR_VALUE', 'VARIABLE') and isinstance(getattr(v, 'value', None), str):
         return (t, ' '.join(v.value.split()))
+    if t in ('NUMBER', 'DIMENSION', 'PERCENTAGE'):
+        # numbers are compared by value to 6 decimal places (the documented limit); a zero length may lose its unit
+        num = round(v.value, 6)
+        dim = v.dimension
+        if num == 0 and dim in LENGTHS:
+            return ('NUMBER', '0.0', None)
+        return (t, '0.0' if num == 0 else repr(num + 0.0), dim)
     return (t, v.cssText)
 
 
@@ -625,8 +635,16 @@ def sheet_model(sheet, comments=True):
 
 # ------------------------------------------------------------------ the model expected from the AST
 
+def expected_kind(c):
+    if c.kind == 'DIMENSION':
+        i = len(c.text.rstrip('abcdefghijklmnopqrstuvwxyz'))
+        if round(float(c.text[:i]), 6) == 0 and c.text[i:] in LENGTHS:
+            return 'NUMBER'
+    return c.kind
+
+
 def expected_decls(decls):
-    return [(n, [c.kind for c in v if c.kind != 'SEP'], 'important' if imp else '') for n, v, imp in decls]
+    return [(n, [expected_kind(c) for c in v if c.kind != 'SEP'], 'important' if imp else '') for n, v, imp in decls]
 
 
 def expected_shape(rules):
